@@ -218,4 +218,88 @@ def raceAccept (trace : List (Nat × Nat × Bool)) (written : List (Nat × Nat))
   (dedup (trace.map (·.1) ++ written.map (·.1))).all fun t =>
     written.filter (fun x => x.1 == t) == okOf trace t
 
+/-! ## A detach that is not atomic: take the pair out of the slot, drop it later
+
+`drop(AttachHandle)` runs `SINK.write().unwrap().take();`: the slot is cleared under the write lock and
+the taken `(sink, join handle)` pair is then dropped — which flushes the sink and can take arbitrarily
+long. Whether that drop happens while the lock is still held (as the code does) or after it has been
+released, other threads' operations may be *issued* meanwhile; the micro-step model lets them also
+*take effect* meanwhile: `take` is the first half (clears slot and handle, remembers the sink being
+flushed), `dropPair` the second half (the pair is gone). Any other operation may be interleaved
+between the two. The same split applies to the guards of the test sinks (the removed sink is dropped
+after the slot/map entry was cleared); it is spelled out for the attach handle.
+-/
+
+inductive Micro where
+  | op (c : Ctx) (o : Op)      -- an operation that is atomic
+  | take (c : Ctx)             -- first half of `drop(attach_handle)`
+  | dropPair (c : Ctx)         -- second half: the taken pair has been dropped (flushed)
+  deriving Repr, DecidableEq
+
+structure MState where
+  st : State
+  /-- sinks taken out of the slot whose pair has not been dropped yet -/
+  dropping : List Nat
+
+/-- One micro-step; `dropPair` has no result of its own (the drop returns when it is done). -/
+def microStep (m : MState) : Micro → MState × Option Res
+  | .op c o => ({ m with st := (step m.st c o).1 }, some (step m.st c o).2)
+  | .take _ =>
+    match m.st.handle with
+    | some s => ({ st := { m.st with attached := none, handle := none }, dropping := m.dropping ++ [s] }, some .ok)
+    | none => (m, some .noop)
+  | .dropPair _ => ({ m with dropping := m.dropping.drop 1 }, none)
+
+def microRun (m : MState) : List Micro → MState × List Res
+  | [] => (m, [])
+  | ev :: rest =>
+    let (m1, r) := microStep m ev
+    let (m2, rs) := microRun m1 rest
+    (m2, match r with | some r => r :: rs | none => rs)
+
+/-- The sequential order that explains an interleaving: every operation at the point where it took
+effect; a detach at its `take`. -/
+def linearize : List Micro → List (Ctx × Op)
+  | [] => []
+  | .op c o :: rest => (c, o) :: linearize rest
+  | .take c :: rest => (c, .dropAttach) :: linearize rest
+  | .dropPair _ :: rest => linearize rest
+
+/-! A variant that is *not* the code: a cached "attached" flag consulted by `try_append` before the
+lock, set by `attach`, cleared by the detach only after the taken pair has been dropped. Used for a
+`decide`d witness that this is not linearizable. -/
+
+structure FlagState where
+  slot : Option Nat
+  handle : Option Nat
+  flag : Bool
+  deriving Repr, DecidableEq
+
+inductive FlagEv where
+  | attach (s : Nat) | take | dropPair | tryAppend (e : Nat)
+  deriving Repr, DecidableEq
+
+def flagStep (f : FlagState) : FlagEv → FlagState × Option Res
+  | .attach s =>
+    match f.slot with
+    | some _ => (f, some .panic)
+    | none => ({ slot := some s, handle := some s, flag := true }, some .ok)
+  | .take =>
+    match f.handle with
+    | some _ => ({ f with slot := none, handle := none }, some .ok)
+    | none => (f, some .noop)
+  | .dropPair => ({ f with flag := false }, none)
+  | .tryAppend e =>
+    if !f.flag then (f, some (.returned e))
+    else match f.slot with
+      | some d => (f, some (.dest d))
+      | none => (f, some (.returned e))
+
+def flagRun (f : FlagState) : List FlagEv → FlagState × List Res
+  | [] => (f, [])
+  | ev :: rest =>
+    let (f1, r) := flagStep f ev
+    let (f2, rs) := flagRun f1 rest
+    (f2, match r with | some r => r :: rs | none => rs)
+
 end Global
